@@ -17,12 +17,12 @@ Definition exp_sig (tys : list sty) (q : out_req) : sig :=
 Definition q_obs (ds : list decl) (q : out_req) : obs :=
   {| o_rn := q_rn q; o_gn := q_gn q; o_sig := exp_sig (ety_prog ds) q |}.
 
-Definition c01_outs (ds : list decl) (qs : list out_req) : list (obs * term) :=
-  let vals := den_prog talg ds in
+Definition c01_outs (U : list sig) (ds : list decl) (qs : list out_req) : list (obs * term) :=
+  let vals := den_prog talg U ds in
   map (fun q => (q_obs ds q, nth (q_decl q) vals (TC 0))) qs.
 
 Definition check_c01 (b : bp) (fuel : nat) (ds : list decl) (qs : list out_req) : option nat :=
-  check_settled b fuel (c01_outs ds qs).
+  check_settled b fuel (c01_outs (b_univ b) ds qs).
 
 Definition ok {X} (o : option X) : bool := match o with Some _ => true | None => false end.
 
@@ -31,13 +31,13 @@ Theorem check_c01_sound b fuel ds qs k :
   forall (env : var -> Z) (t : nat), (k < t)%nat ->
   forall q, In q qs ->
     observe (zalg env) b (run (zalg env) b t) (q_obs ds q)
-    = nth (q_decl q) (den_prog (zalg env) ds) 0.
+    = nth (q_decl q) (den_prog (zalg env) (b_univ b) ds) 0.
 Proof.
   intros Hc env t Ht q Hq. unfold check_c01 in Hc.
   rewrite (check_settled_sound env b fuel _ k Hc t Ht (q_obs ds q)
-             (nth (q_decl q) (den_prog talg ds) (TC 0))).
+             (nth (q_decl q) (den_prog talg (b_univ b) ds) (TC 0))).
   - rewrite <- (den_prog_hom talg (zalg env) (eval env) (talg_hom env)).
-    symmetry. apply (map_nth (eval env) (den_prog talg ds) (TC 0)).
+    symmetry. apply (map_nth (eval env) (den_prog talg (b_univ b) ds) (TC 0)).
   - unfold c01_outs. apply in_map_iff. exists q. split; [reflexivity | exact Hq].
 Qed.
 
@@ -45,40 +45,70 @@ Qed.
    must be enabled exactly when the assigned expression is positive *)
 Record ent_req := { r_ent : nat; r_expr : expr }.
 
-Definition enable_term {V} (A : alg V) (ds : list decl) (e : expr) : V :=
-  a_cmp A CGt (den A (den_prog A ds) e) (a_const A 0).
+Definition enable_term {V} (A : alg V) (U : list sig) (ds : list decl) (e : expr) : V :=
+  a_cmp A CGt (den A U (den_prog A U ds) (bden_prog A U ds) e) (a_const A 0).
 
-Definition prog_pcs (ds : list decl) (rs : list ent_req) : list (nat * term) :=
-  map (fun r => (r_ent r, enable_term talg ds (r_expr r))) rs.
+Definition prog_pcs (U : list sig) (ds : list decl) (rs : list ent_req) : list (nat * term) :=
+  map (fun r => (r_ent r, enable_term talg U ds (r_expr r))) rs.
+
+(* bundle-valued outputs: the WHOLE signal map of the anchor network, over the universe *)
+Record bout_req := { bq_decl : nat; bq_rn : N; bq_gn : N }.
+Definition bundle_outs (U : list sig) (ds : list decl) (bqs : list bout_req) : list (obs * term) :=
+  flat_map (fun q => map (fun s => ({| o_rn := bq_rn q; o_gn := bq_gn q; o_sig := s |},
+                                    get talg (nth (bq_decl q) (bden_prog talg U ds) []) s)) U) bqs.
 
 Definition check_prog (b : bp) (fuel : nat) (ds : list decl) (qs : list out_req) (rs : list ent_req)
   : option nat :=
-  check_settled2 b fuel (c01_outs ds qs) (prog_pcs ds rs).
+  check_settled2 b fuel (c01_outs (b_univ b) ds qs) (prog_pcs (b_univ b) ds rs).
+
+Definition check_progb (b : bp) (fuel : nat) (ds : list decl) (qs : list out_req) (rs : list ent_req)
+           (bqs : list bout_req) : option nat :=
+  check_settled2 b fuel (c01_outs (b_univ b) ds qs ++ bundle_outs (b_univ b) ds bqs) (prog_pcs (b_univ b) ds rs).
 
 Theorem check_prog_sound b fuel ds qs rs k :
   check_prog b fuel ds qs rs = Some k ->
   forall (env : var -> Z) (t : nat), (k < t)%nat ->
   (forall q, In q qs ->
-     observe (zalg env) b (run (zalg env) b t) (q_obs ds q) = nth (q_decl q) (den_prog (zalg env) ds) 0) /\
+     observe (zalg env) b (run (zalg env) b t) (q_obs ds q) = nth (q_decl q) (den_prog (zalg env) (b_univ b) ds) 0) /\
   (forall r, In r rs ->
      pcond (zalg env) b (run (zalg env) b t) (r_ent r)
-     = Some (b2z (den (zalg env) (den_prog (zalg env) ds) (r_expr r) >? 0))).
+     = Some (b2z (den (zalg env) (b_univ b) (den_prog (zalg env) (b_univ b) ds) (bden_prog (zalg env) (b_univ b) ds) (r_expr r) >? 0))).
 Proof.
   intros Hc env t Ht. unfold check_prog in Hc.
   destruct (check_settled2_sound env b fuel _ _ k Hc t Ht) as [H1 H2]. split.
   - intros q Hq.
-    rewrite (H1 (q_obs ds q) (nth (q_decl q) (den_prog talg ds) (TC 0))).
+    rewrite (H1 (q_obs ds q) (nth (q_decl q) (den_prog talg (b_univ b) ds) (TC 0))).
     + rewrite <- (den_prog_hom talg (zalg env) (eval env) (talg_hom env)).
-      symmetry. apply (map_nth (eval env) (den_prog talg ds) (TC 0)).
+      symmetry. apply (map_nth (eval env) (den_prog talg (b_univ b) ds) (TC 0)).
     + unfold c01_outs. apply in_map_iff. exists q. split; [reflexivity | exact Hq].
   - intros r Hr.
-    rewrite (H2 (r_ent r) (enable_term talg ds (r_expr r))).
+    rewrite (H2 (r_ent r) (enable_term talg (b_univ b) ds (r_expr r))).
     + unfold enable_term. f_equal.
       rewrite (h_cmp talg (zalg env) (eval env) (talg_hom env)), (h_const talg (zalg env) (eval env) (talg_hom env)),
               (den_hom talg (zalg env) (eval env) (talg_hom env)),
-              (den_prog_hom talg (zalg env) (eval env) (talg_hom env)).
+              (den_prog_hom talg (zalg env) (eval env) (talg_hom env)),
+              (bden_prog_hom talg (zalg env) (eval env) (talg_hom env)).
       reflexivity.
     + unfold prog_pcs. apply in_map_iff. exists r. split; [reflexivity | exact Hr].
+Qed.
+
+(* bundles: every signal of the universe on the anchor network carries the member's value (0 for a
+   non-member: nothing leaks), for all inputs *)
+Theorem check_progb_sound b fuel ds qs rs bqs k :
+  check_progb b fuel ds qs rs bqs = Some k ->
+  forall (env : var -> Z) (t : nat), (k < t)%nat ->
+  forall q, In q bqs -> forall s, In s (b_univ b) ->
+    observe (zalg env) b (run (zalg env) b t) {| o_rn := bq_rn q; o_gn := bq_gn q; o_sig := s |}
+    = get (zalg env) (nth (bq_decl q) (bden_prog (zalg env) (b_univ b) ds) []) s.
+Proof.
+  intros Hc env t Ht q Hq s Hs. unfold check_progb in Hc.
+  destruct (check_settled2_sound env b fuel _ _ k Hc t Ht) as [H1 _].
+  rewrite (H1 _ (get talg (nth (bq_decl q) (bden_prog talg (b_univ b) ds) []) s)).
+  - rewrite (get_hom talg (zalg env) (eval env) (talg_hom env)).
+    rewrite <- (bden_prog_hom talg (zalg env) (eval env) (talg_hom env)).
+    f_equal. change (@nil (sig * Z)) with (hm (eval env) []). symmetry. apply map_nth.
+  - apply in_or_app. right. unfold bundle_outs. apply in_flat_map. exists q. split; [exact Hq|].
+    apply in_map_iff. exists s. split; [reflexivity | exact Hs].
 Qed.
 
 (* ---- diagnostics for a failing case (not part of any proof) *)
@@ -88,14 +118,14 @@ Definition debug_c01 (b : bp) (fuel : nat) (ds : list decl) (qs : list out_req)
   | None => None
   | Some (k, st) =>
       Some (k, map (fun q => (q_decl q, observe talg b st (q_obs ds q),
-                              nth (q_decl q) (den_prog talg ds) (TC 0))) qs)
+                              nth (q_decl q) (den_prog talg (b_univ b) ds) (TC 0))) qs)
   end.
 
 (* concrete evaluation for the failing-input search *)
 Definition conc_c01 (b : bp) (ticks : nat) (ds : list decl) (qs : list out_req) (env : var -> Z)
   : list (Z * Z) :=
   let st := run (zalg env) b ticks in
-  let vals := den_prog (zalg env) ds in
+  let vals := den_prog (zalg env) (b_univ b) ds in
   map (fun q => (observe (zalg env) b st (q_obs ds q), nth (q_decl q) vals 0)) qs.
 
 Definition debug_prog (b : bp) (fuel : nat) (ds : list decl) (qs : list out_req) (rs : list ent_req) :=
@@ -103,16 +133,16 @@ Definition debug_prog (b : bp) (fuel : nat) (ds : list decl) (qs : list out_req)
   | None => None
   | Some (k, st) =>
       Some (k, map (fun q => (q_decl q, observe talg b st (q_obs ds q),
-                              nth (q_decl q) (den_prog talg ds) (TC 0))) qs,
-               map (fun r => (r_ent r, pcond talg b st (r_ent r), enable_term talg ds (r_expr r))) rs)
+                              nth (q_decl q) (den_prog talg (b_univ b) ds) (TC 0))) qs,
+               map (fun r => (r_ent r, pcond talg b st (r_ent r), enable_term talg (b_univ b) ds (r_expr r))) rs)
   end.
 
 Definition conc_prog (b : bp) (ticks : nat) (ds : list decl) (qs : list out_req) (rs : list ent_req)
   (env : var -> Z) : list (Z * Z) :=
   let st := run (zalg env) b ticks in
-  let vals := den_prog (zalg env) ds in
+  let vals := den_prog (zalg env) (b_univ b) ds in
   map (fun q => (observe (zalg env) b st (q_obs ds q), nth (q_decl q) vals 0)) qs ++
   map (fun r => (match pcond (zalg env) b st (r_ent r) with Some v => v | None => -1 end,
-                 enable_term (zalg env) ds (r_expr r))) rs.
+                 enable_term (zalg env) (b_univ b) ds (r_expr r))) rs.
 
 Definition env_of (l : list Z) : var -> Z := fun v => nth (Pos.to_nat v - 1) l 0.
